@@ -36,7 +36,7 @@ def In.inDomain (I : In) : Option String :=
   if I.s.x == 0 || I.s.y == 0 || I.hf.sc.x == 0 || I.hf.sc.y == 0 then some "skip degenerate-scale" else
   if I.hf.hs.size < 2 then some "skip fewer-than-2-heights" else none
 
-/-! ### `map_elements_in_local_aabb` of a scaled field (2-D and 3-D), oracle only
+/-! ### `map_elements_in_local_aabb` of a scaled field (2-D and 3-D): models `Hf2S.elemsInAabb` / `Hf3S.elemsInAabb` (bit-exact) + oracle
 
 The primitives of the scaled field are read from the implementation's own `segments()` / `triangles()` (judged elsewhere:
 `hf2_polyline`, `acc3`).  For every query box: a primitive with a sample point (vertices, edge midpoints, centroid) STRICTLY inside
@@ -106,8 +106,28 @@ def elems2Model (a : List String) : Option String :=
       got.foldl (fun o (i, g) => o ++ s!" {i} " ++ fseg g) (o ++ s!" {got.length}")) s!"{head} boxes {nb}"
     pure body) a
 
+/-- the model side of `hf3_scaled_elems` (wire: `nr nc h[nr*nc] (row-major) hsc(3) NS status* s(3) VIA NB (lo(3) hi(3))*`) -/
+def elems3Model (a : List String) : Option String :=
+  run (do
+    let nr ← pnat; let nc ← pnat; let hs ← C19.Ext.pmany pf (nr * nc)
+    let hsc ← pv3; let ns ← pnat; let st ← C19.Ext.pmany pnat ns
+    let s ← pv3; let _via ← pnat; let nb ← pnat
+    let bs ← C19.Ext.pmany (do let lo ← pv3; let hi ← pv3; pure (lo, hi)) nb
+    let H := hs.toArray
+    -- column-major heights, status list `(i, j, bits)` (the wire lists the cells row by row)
+    let col : Array Float := ((List.range nc).flatMap fun j => (List.range nr).map fun i => H.getD (i * nc + j) 0).toArray
+    let stl : List (Nat × Nat × Nat) := (List.range (nr - 1)).flatMap fun i => (List.range (nc - 1)).map fun j => (i, j, (st.toArray.getD (i * (nc - 1) + j) 0) % 8)
+    let h : HeightField3 Float := ⟨nr, nc, col, hsc.cmul s, stl⟩
+    let ftri (t : Triangle3 Float) : String := s!"{fv3 t.a} {fv3 t.b} {fv3 t.c}"
+    let tris := Hf3S.triangles h
+    let head := tris.foldl (fun o t => o ++ " " ++ ftri t) s!"prims tri {tris.length}"
+    let body := bs.foldl (fun o (lo, hi) =>
+      let got := Hf3S.elemsInAabb h lo hi
+      got.foldl (fun o (i, t) => o ++ s!" {i} " ++ ftri t) (o ++ s!" {got.length}")) s!"{head} boxes {nb}"
+    pure body) a
+
 def elemsHandler (dim : Nat) : Handler := {
-  model := fun a => if dim = 2 then elems2Model a else some "-"
+  model := fun a => if dim = 2 then elems2Model a else elems3Model a
   oracle := fun a o =>
     let pargs : P (Bool × List (V3 Rat × V3 Rat)) :=
       if dim = 2 then do
